@@ -200,6 +200,30 @@ if item is not None:
         except Exception as e:
             mism.append({"key": f"C16:reader-rejected:n={n}", "what": f"factory-built reader for packed length {tri(n)} raised {type(e).__name__}: {e}"})
 
+# a (packed length, dimension) pair offered through the Python factory reaches the reader unchanged: a dimension too large for the
+# packed length is rejected, the attributes are what was offered
+if item is not None:
+    for flat, dim in ((6, 4), (1, 2), (3, 3), (15, 6), (21, 7), (28, 8), (10, 5), (0, 1)):
+        n_factory += 1
+        try:
+            fac = F("m_err", "d", flat, dim)
+            if (int(fac.flat_size), int(fac.full_dim)) != (flat, dim):
+                mism.append({"key": f"C16:factory-args:flat={flat}:dim={dim}", "what": f"Bes3SymMatrixArrayFactory(flat_size={flat}, full_dim={dim}) holds "
+                             f"flat_size={fac.flat_size}, full_dim={fac.full_dim}"})
+            fac.build_cpp_reader()
+            mism.append({"key": f"C16:factory-accepts:flat={flat}:dim={dim}", "what": f"the factory built a reader for packed length {flat} and dimension {dim} "
+                         f"({dim}({dim}+1)/2 = {tri(dim)} > {flat}): a dimension too large for the packed length must be rejected"})
+        except (RuntimeError, ValueError, AssertionError):
+            pass
+    for flat, dim in ((6, 3), (7, 3), (15, 5), (21, 6), (30, 7)):
+        n_factory += 1
+        try:
+            fac = F("m_err", "d", flat, dim); fac.build_cpp_reader()
+            if (int(fac.flat_size), int(fac.full_dim)) != (flat, dim):
+                mism.append({"key": f"C16:factory-args:flat={flat}:dim={dim}", "what": f"factory holds flat_size={fac.flat_size}, full_dim={fac.full_dim}"})
+        except Exception as e:
+            mism.append({"key": f"C16:reader-rejected:flat={flat}:dim={dim}", "what": f"legal pair ({flat}, {dim}) rejected: {type(e).__name__}: {e}"})
+
 print(json.dumps({"members_checked": n_members, "objects": n_objects, "entries_compared": n_entries, "factory_calls": n_factory,
                   "target_items": target_items, "items_seen_in_fixtures": sorted(seen_items), "mismatches": mism[:40], "tie": tie[:20],
                   "samples": samples, "hashes": sorted(hashes)}))
